@@ -56,3 +56,30 @@ package hh
 //@   requires head_wf: l.head != nil ==> l.head.size >= 8
 //@   ensures empty_iff_no_pending: result == (l.head == nil || l.tail == nil || len(l.segments) == 0 || (l.head == l.tail && l.head.pos == l.head.size - 8 && (l.head.buf == nil || buf_len(l.head.buf) == 0)))
 //@   modifies nothing
+
+// ---- C19: lock discipline of the hinted-handoff service (swept over every function of the package) ----
+//@ guarded Service.processors by mu
+//@ guarded queue.head by mu
+//@ guarded queue.tail by mu
+//@ guarded queue.segments by mu
+
+// helpers that are entered with the lock already held (checked at every static call site by the sweep)
+//@ func (*Service).processor
+//@   holds_r s.mu
+//@ func (*Service).setProcessor
+//@   holds s.mu
+//@ func (*queue).addSegment
+//@   holds l.mu
+//@ func (*queue).trimHead
+//@   holds l.mu
+//@ func (*queue).diskUsage
+//@   props C19
+//@   nosafety
+//@   holds_r l.mu
+//@   modifies nothing
+
+// Current/Truncate run on the node processor's own goroutine (SendWrite), the only one that moves head after Open
+//@ func (*queue).Current
+//@   reads_unlocked queue.head the processor goroutine is the only writer of head after Open (Advance, PurgeOlderThan run on it)
+//@ func (*queue).Truncate
+//@   reads_unlocked queue.head the processor goroutine is the only writer of head after Open (Advance, PurgeOlderThan run on it)
